@@ -592,3 +592,6 @@ def replay(witness):
     inp = witness['input']
     _, _, bad, _ = check_script(inp['script'], inp['checks'])
     return any(o == witness['oracle'] for o, _, _, _ in bad)
+
+
+LEVEL_TEXT_EXT = ('C15Cb: the call-back forms of arrayIndexOf / arrayLastIndexOf / arraySort as interaction trees over the library heap; CPython binary insertion sort modelled exactly below 64 elements; pySort_eval (= the stable sort for any total preorder), pySort_allPerm, indexOf_cb_spec, sort_cb_contract, sort_cb_perm_always.')
